@@ -391,25 +391,49 @@ theorem gmatch_lits_dstar (l s : Bytes) : gmatch (l.map Tok.lit ++ [Tok.dstar]) 
       rw [gmatch]
       simp [ih, List.isPrefixOf]
 
-theorem tokens_plain (l : Bytes) (hg : l.any isGlobChar = false) :
-    tokens (l ++ [42, 42]) = l.map Tok.lit ++ [Tok.dstar] := by
-  induction l with
-  | nil => simp [tokens]
+/-- characters with a meaning in the glob syntax -/
+def isMeta (c : UInt8) : Bool := c == 42 || c == 63 || c == 91 || c == 123 || c == 92
+
+theorem parseSegs_plain (l : Bytes) (hm : l.any isMeta = false) (f : Nat) (hf : l.length + 1 ≤ f) :
+    parseSegs f (l ++ [42, 42]) = some (l.map (fun c => Seg.tok (.lit c)) ++ [Seg.tok .dstar]) := by
+  induction l generalizing f with
+  | nil =>
+    cases f with
+    | zero => omega
+    | succ f => simp [parseSegs]
   | cons c r ih =>
-    simp only [List.any_cons, Bool.or_eq_false_iff] at hg
-    have h42 : c ≠ 42 := by intro h; subst h; simp [isGlobChar] at hg
-    have h63 : c ≠ 63 := by intro h; subst h; simp [isGlobChar] at hg
-    simp only [List.cons_append, List.map_cons]
-    unfold tokens
-    split
-    · rename_i heq; cases heq
-    · rename_i heq; injection heq with h _; exact absurd h h42
-    · rename_i heq; injection heq with h _; exact absurd h h42
-    · rename_i heq; injection heq with h _; exact absurd h h63
-    · rename_i heq
-      injection heq with ha hb
-      subst ha hb
-      rw [ih hg.2]
+    simp only [List.any_cons, Bool.or_eq_false_iff] at hm
+    have h42 : c ≠ 42 := by intro h; subst h; simp [isMeta] at hm
+    have h63 : c ≠ 63 := by intro h; subst h; simp [isMeta] at hm
+    have h91 : c ≠ 91 := by intro h; subst h; simp [isMeta] at hm
+    have h123 : c ≠ 123 := by intro h; subst h; simp [isMeta] at hm
+    have h92 : c ≠ 92 := by intro h; subst h; simp [isMeta] at hm
+    cases f with
+    | zero => simp at hf
+    | succ f =>
+      simp only [List.cons_append, List.map_cons]
+      unfold parseSegs
+      split
+      all_goals first
+        | (exfalso; simp_all; done)
+        | skip
+      rename_i heq1 heq2
+      cases heq1
+      cases heq2
+      rw [ih hm.2 _ (by simp at hf; omega)]
+      rfl
+
+theorem expand_plain (l : Bytes) :
+    expand (l.map (fun c => Seg.tok (.lit c)) ++ [Seg.tok .dstar]) = [l.map Tok.lit ++ [Tok.dstar]] := by
+  induction l with
+  | nil => simp [expand]
+  | cons c r ih => simp [expand, ih]
+
+theorem parsePattern_plain (l : Bytes) (hm : l.any isMeta = false) :
+    parsePattern (l ++ [42, 42]) = [l.map Tok.lit ++ [Tok.dstar]] := by
+  unfold parsePattern
+  rw [parseSegs_plain l hm _ (by simp)]
+  exact expand_plain l
 
 theorem stripSlash_ne (a : UInt8) (r : Bytes) (h : a ≠ 47) : stripSlash (a :: r) = a :: r := by
   unfold stripSlash
